@@ -38,7 +38,7 @@ def main():
             )
             meta.setdefault(
                 "note",
-                "Not decided (value-level / runtime): " + "; ".join(ck.not_decided) + ". Trusted: CPython ast, the sv engine (self-tested in the thorough tier against 66 breaking and 80 benign variants), "
+                "Not decided (value-level / runtime): " + "; ".join(ck.not_decided) + ". Trusted: CPython ast, the sv engine (self-tested in the thorough tier against the breaking and benign variants under /verif/seeded and /verif/benign), "
                 + "; ".join(ck.trusted) + ".",
             )
             rules = sorted({o.rule.split(".", 1)[1] for o in ck.obs if "." in o.rule})
@@ -86,12 +86,12 @@ def main():
                 "name": "sv",
                 "path": "/verif/sv",
                 "serves_properties": [c["property_id"] for c in checks],
-                "kind_free_text": "repository-specific static analyser: ast loader with call/class resolution, statement-level CFG with short-circuit atom branches, cut-set guard / dominance / follow primitives, alias-expanding provenance, effect table, writer/reader agreement rules",
+                "kind_free_text": "repository-specific static analyser: ast loader with call/class resolution and a normalisation pipeline (helper inlining, closure conversion, scalar replacement, copy coalescing, forward substitution, table-loop unrolling), statement-level CFG with short-circuit atom branches, cut-set guard / dominance / follow primitives with flag reasoning, alias-expanding provenance, order provenance, effect table, writer/reader agreement rules, aliasing lints",
             }
         ],
         "checks": checks,
         "not_applicable": na,
-        "notes": "All checks are static (no execution of dvc_data). exit 0 = all obligations discharged; exit 1 + VIOLATION line = a structural clause fails at a named construct; exit 2 + ANALYSIS-ERROR = the analysis could not run (vanished anchor). Four genuine defects were repaired by fix: commits in /repo (see known_findings.json 'fixed').",
+        "notes": "All checks are static (no execution of dvc_data). exit 0 = all obligations discharged; exit 1 + VIOLATION line = a structural clause fails at a named construct; exit 2 + ANALYSIS-ERROR = the analysis could not run (vanished anchor). Eight genuine defects were repaired by fix: commits in /repo (see known_findings.json 'fixed').",
     }
     with open(os.path.join(VERIF, "MANIFEST.json"), "w", encoding="utf-8") as f:
         json.dump(manifest, f, indent=1)
